@@ -11,9 +11,10 @@ TRUST = ('Assumed, not proved: floats are mathematical reals and ints unbounded 
 TECH = ('contract-based deductive verification: sidecar contracts (requires/ensures/modifies/invariants) on the real '
         'functions of /repo/mabwiser, VCs generated from their AST on every run (PyVC) and discharged by z3')
 
-SCOPE = (' Scope of the proof: the context-free policies, the linear policies, Radius and KNearest over every one of them, '
-         'and the MAB facade constructed over those. approximate.py (LSHNearest), clusters.py and treebandit.py are not '
-         'under contract (DESIGN.md 12.6): for them, and for NumPy dtype / memory-layout effects everywhere, the check '
+SCOPE = (' Scope of the proof: the context-free policies, the linear policies, Radius, KNearest and LSHNearest over every one '
+         'of them, and the MAB facade constructed over those (for LSHNearest two contracts are assumed, not proved: '
+         '_fit_operation and _parallel_predict with an LSH receiver; they are listed in the evidence). clusters.py and '
+         'treebandit.py are not under contract (DESIGN.md 12.6): for them, and for NumPy dtype / memory-layout effects everywhere, the check '
          'runs the bounded runtime leg (rt/: the property\'s executable form on the real API over enumerated small scopes, '
          'reported under "bounded" in the evidence and never counted as proved; a failing input found there is reported '
          'as a violation with the input).')
